@@ -175,6 +175,15 @@ def main():
             cdd.compound.gen.gen(x.get("tpl", "{name}Gen"), inp, x.get("parse", "class"), x["emit"], out, emit_and_infer_imports=x.get("infer", True), **kw)
             return open(out).read()
 
+        def api_gen_json_file(x):
+            # a function -> JSON-schema FILE through gen (the JSON encoder turns set-valued defaults into sorted lists)
+            inp = fresh("input_fn.py")
+            with open(inp, "w") as f:
+                f.write(x["src"])
+            out = fresh("out.json")
+            cdd.compound.gen.gen("{name}Gen", inp, "function", "json_schema", out, emit_and_infer_imports=False)
+            return open(out).read()
+
         def api_doctrans(x):
             p = fresh("mod.py")
             with open(p, "w") as f:
